@@ -170,7 +170,7 @@ class Parameter(AnnotatedValue):
                 )
         elif self.kind == ParamType.INT:
             if isinstance(value, Integral) or (
-                isinstance(value, Real) and float(value).is_integer()
+                isinstance(value, Real) and is_integral(value)
             ):
                 pass
             elif isinstance(value, AnnotatedValue) and value.kind in (
@@ -182,7 +182,7 @@ class Parameter(AnnotatedValue):
                 isinstance(value, AnnotatedValue)
                 and value.kind == ParamType.FLOAT
                 and hasattr(value, "value")
-                and float(value.value).is_integer()
+                and is_integral(value.value)
             ):
                 # A constant whose floating point value is integral
                 pass
@@ -209,6 +209,16 @@ class Parameter(AnnotatedValue):
             return Register(name, alias_from=self, alias_slice=key)
         else:
             return NamedQubit(name, self, key)
+
+
+def is_integral(value):
+    """Return whether a real number (or a constant holding one) has an
+    integral value, also when it is too large to be converted to a float."""
+    try:
+        return float(value).is_integer()
+    except OverflowError:
+        # Too large for a float (a big Fraction, say): compare exactly.
+        return value == int(value)
 
 
 def make_item_name(array, index):
